@@ -358,8 +358,16 @@ def shared_state(spec, lv, w):
     return None
 
 
-def first_script(pre):
-    """a script that leaves exactly the given entries behind: it declares them and then fails"""
+FAILURES = ["Vac | name_that_is_not_defined_anywhere",      # BlackbirdSyntaxError (undefined name)
+            "Vac | 0.5",                                     # a float as a mode
+            "int zz_fail = 1+2j",                            # a complex value for an int variable
+            "float array ZZ[3, 3] =\n    1, 2",              # a declared shape that does not fit
+            "Dgate(1/0) | 0"]                                # an arithmetic error
+
+
+def first_script(pre, failure=0):
+    """a script that leaves exactly the given entries behind: it declares them and then fails (in one of several ways: a
+    leak may depend on the kind of exception that ended the earlier load)"""
     L = ["name leftover", "version 1.0"]
     if any(p[0] == "_PARAMS" for p in pre):
         L.append("type tdm (temporal_modes=2)")
@@ -374,18 +382,26 @@ def first_script(pre):
                 L.append('str %s = "stale"' % name)
         else:
             L += ["int array %s =" % name, "    1, 2"]
-    L.append("Vac | name_that_is_not_defined_anywhere")
+    L.append(FAILURES[failure])
     return "\n".join(L) + "\n"
 
 
 def concrete_history(spec, vals, pre, w=None, pristine_subprocess=False):
+    for k in range(len(FAILURES)):
+        r = _concrete_history(spec, vals, pre, k)
+        if r is not None:
+            return r
+    return None
+
+
+def _concrete_history(spec, vals, pre, failure):
     """second load after a failed first load vs. the same load from empty tables.  dict on mismatch."""
     import subprocess
     import blackbird
     import blackbird.auxiliary as aux
     lv = skel.Leaves(values=vals)
     text = gen(spec, lv)["text"]
-    first = first_script(pre)
+    first = first_script(pre, failure)
 
     def load(t):
         try:
@@ -446,7 +462,7 @@ def replay(spec, vals, pre):
 # symbolic values; optionally failing at its end; optionally with every concrete literal shifted by one), then the
 # script B, in one process state - B's outcome must be what B gives alone, for all values of both.
 FAIL_LINE = "Vac | name_that_is_not_defined_anywhere"
-TWIN_MODES = ["same", "fails", "lit-1", "lit+1 fails"]
+TWIN_MODES = ["same", "fails", "lit-1", "lit+1 fails", "fails otherwise"]
 
 
 def literal_indices(text, lang, is_leaf):
@@ -484,7 +500,8 @@ def twin_texts(spec, lv, mode, lang, idxs=None):
     if "lit" in mode:
         A = shift_literals(A, lang, idxs, -1 if "lit-1" in mode else 1)
     if "fails" in mode:
-        A = A + FAIL_LINE + "\n"
+        # (the kind of exception that ends the first load may matter: an undefined name / a float used as a mode)
+        A = A + (FAILURES[1] if "otherwise" in mode else FAIL_LINE) + "\n"
     return A, B, list(gA.get("pre", [])) + list(gB.get("pre", [])), idxs
 
 
@@ -700,7 +717,7 @@ def twin_specs(tier, seed):
     specs += [("c08", s) for s in [x for x in c08.gen_specs("quick", seed) if len(x) == 2 and isinstance(x[1], int)][::(6 if tier == "quick" else 1)]]
     specs += [("c15", s) for s in list(c15.SCRIPTS)[::(4 if tier == "quick" else 1)]]
     if tier == "quick":      # two of the four twin modes per script, rotating
-        return [(s, m) for s in specs if s[0] == "extra" for m in TWIN_MODES] + [(s, TWIN_MODES[(i + j) % 4]) for i, s in enumerate(specs) if s[0] != "extra" for j in (0, 1)]
+        return [(s, m) for s in specs if s[0] == "extra" for m in TWIN_MODES] + [(s, TWIN_MODES[(i + j) % len(TWIN_MODES)]) for i, s in enumerate(specs) if s[0] != "extra" for j in (0, 1)]
     return [(s, m) for s in specs for m in TWIN_MODES]
 
 
